@@ -65,7 +65,8 @@ def cases(tier, seed):
                         (1, 0.6), (2, 0.34), (3, 0.6), (2, 0.75)):
                     continue
                 yield {'kind': 'core', 'L': L, 'shape': shape,
-                       'scheme': 'B', 'seed': seed, 'iterations': it,
+                       'scheme': 'BD'[it % 2], 'seed': seed,
+                       'iterations': it,
                        'factor': factor, 'bound': b['core_bound'],
                        'complete': (tier == 'thorough' and it <= 2
                                     and n <= 3),
@@ -73,8 +74,8 @@ def cases(tier, seed):
     # ---- pipeline
     Lm, Nm = b['pipe_shapes']
     for L, n, shape in domains.shapes_up_to(Lm, Nm, min_leaves=2):
-        yield {'kind': 'pipe', 'L': L, 'shape': shape, 'scheme': 'B',
-               'seed': seed, 'tier': tier}
+        yield {'kind': 'pipe', 'L': L, 'shape': shape,
+               'scheme': 'BD'[(L + n) % 2], 'seed': seed, 'tier': tier}
     # ---- gene order permutations (pipeline)
     for L, n, shape in [(2, 3, domains.tree_shapes(2, 3)[1]),
                         (1, 3, domains.tree_shapes(1, 3)[0])]:
@@ -323,7 +324,7 @@ def evaluate_core(case, scratch):
 def pipe_space(L, n_cells, tier):
     alph = {
         'factor': [1.0, 0.34, 1e-3],
-        'iterations': [1, 2, 7],
+        'iterations': [1, 2, 7, 256],
         'factor_lookup': [True],
         'normalization': ['log2CPM'],
         'encoding': ['csr', 'csc'],
